@@ -19,9 +19,14 @@ SERVICES = ["s3", "ec2", "iam", "sqs", "sns", "kms", "lambda", "logs", "sts", "d
 
 def gen_pattern(rng):
     cat = catalogue()
-    k = rng.randrange(12)
+    k = rng.randrange(13)
     a = rng.choice(cat)
     svc, name = a.split(":", 1)
+    if k == 12:
+        # a single-character wildcard inside a prefix that ends in `*`
+        i = rng.randrange(len(svc) + 1, max(len(svc) + 2, len(a) - 2))
+        j = rng.randrange(i + 1, len(a) + 1)
+        return a[:i] + "?" + a[i + 1 : j] + "*"
     if k == 0:
         return a
     if k == 1:
